@@ -5,10 +5,10 @@ CONSTANTS
   Code <- RFCCode
   CLen <- RFCLen
   MaxList = 3
-  Short = {1, 2, 4, 5, 7, 8, 9, 10, 11, 12, 13, 14}
-  Long = {3, 6, 15, 16, 17}
-  Octets = {0, 1, 7, 8, 15, 16, 31, 32, 33, 39, 40, 41, 47, 48, 49, 58, 63, 64, 79, 80, 81, 95, 97, 112, 127, 128, 129, 191, 192, 193, 194, 254, 255, 35, 36}
+  Short = {1, 2, 5, 7, 9, 10, 12, 13}
+  Long = {3, 4, 6, 8, 11, 14, 15, 16, 17}
+  Octets = {0, 1, 7, 15, 16, 31, 32, 33, 39, 40, 41, 47, 49, 58, 64, 80, 81, 95, 97, 112, 127, 128, 129, 191, 192, 194, 254, 255, 35, 36}
   MaxOctets = 4
-  LongFirst = {33, 80, 95}
+  LongFirst = {33, 80}
 INVARIANTS Emit
 CHECK_DEADLOCK FALSE
